@@ -44,3 +44,16 @@ Example C09_example :
   = inl (VList [VTuple [VStr "Glc"; VStr "OC1..."]; VTuple [VNone; VStr ""]; VTuple [VInt 3; VStr ""];
                 VTuple [VStr "Glc"; VStr "OC1..."]; VTuple [VStr "x"; VStr ""]; VTuple [VStr "zzz"; VStr ""]]).
 Proof. vm_compute. reflexivity. Qed.
+
+From GV Require Import Proofs.CliThm.
+
+(* convert_generator: the same pairs, in the same order, one per input; exhausted => logger flag restored *)
+Theorem C09_convert_generator :
+  forall (conv : value -> value -> res string), (forall g f, conv g f <> inr ExExit) ->
+  forall fuel g l f gen verbose cpu full w ls fl items,
+    list_arg l ls -> file_arg w f fl -> gen_arg gen items ->
+    (verbose = VNone -> w_disabled w = false) ->
+    call_gen conv program (40 + fuel) "convert_generator" [g; l; f; gen; verbose; cpu; full] [] w =
+    (gen_outcome (optv g ++ ls ++ fl) gen, map (pair_of conv full) ((optv g ++ ls ++ fl) ++ items), w).
+Proof. exact convert_generator_spec. Qed.
+Print Assumptions C09_convert_generator.
